@@ -13,7 +13,7 @@
 From Coq Require Import List Arith Bool Lia ZArith QArith Permutation.
 Import ListNotations.
 From TF Require Import Base RandomPrims Tree TreeIdx TreeProofs TreeProofs2 TreeCR GPOps
-  GPOpsProofs GPOpsProofs2 GPOpsProofs3 GPOpsProofs4 GPOpsProofs5.
+  GPOpsProofs GPOpsProofs2 GPOpsProofs3 GPOpsProofs4 GPOpsProofs5 TreeCRk GPOpsProofs6.
 Open Scope nat_scope.
 
 (* ------------------------------------------------------------------ what "well formed" means *)
@@ -147,7 +147,10 @@ Theorem C08_uniform_family_two : forall (sym : Type) (arity : sym -> nat) (p1 p2
 Proof. intros sym arity. exact (uniform_family_two arity). Qed.
 Print Assumptions C08_uniform_family_two.
 
-(* Any number k of parents.  FULL STATEMENT (not proved for k <> 2):
+(* Any number k of parents.  The full statement is now PROVED: see C08_uniform_k_closed below (the
+   hypothesis of the _partial theorem is discharged by TreeCRk.common_region_k_spec, the unbounded
+   theorem about the k-tree walk).  The _partial theorem is kept as a record.
+   FULL STATEMENT (was not proved for k <> 2 when the _partial theorem was written):
      forall T0 Ts' draw_pool ds c ds' ml, Forall wft (T0 :: Ts') ->
        uniform_with arity (parents_of arity (T0 :: Ts')) draw_pool ds = Some (c, ds') ->
        wfp c /\ syms_from parents c /\ (all parents <= ml -> depthp c <= ml)
@@ -168,6 +171,26 @@ Proof.
   - exact (uniform_with_spec arity T0 Ts' fuel dp ds c ds' W Hf Hr H).
 Qed.
 Print Assumptions C08_uniform_k_closed_partial.
+
+(* get_common_region (two-tree walk for 2 parents, k-tree walk otherwise) returns the recursive
+   common region of the parents, for ANY number of well-formed parents *)
+Theorem C08_region_is_rec : forall (sym : Type) (arity : sym -> nat) (T0 : tree sym) Ts',
+  Forall (fun t => wft arity t = true) (T0 :: Ts') ->
+  region arity (parents_of arity (T0 :: Ts')) = Some (region_rec arity (T0 :: Ts') (S (depth T0))).
+Proof. intros sym arity. exact (region_is_rec arity). Qed.
+Print Assumptions C08_region_is_rec.
+
+(* the uniform family with any number k >= 1 of parents, UNCONDITIONALLY: the child is well
+   formed, built from the parents' symbols, no deeper than the deepest parent, and it is a mix of
+   the parents over their recursive common region *)
+Theorem C08_uniform_k_closed : forall (sym : Type) (arity : sym -> nat) (T0 : tree sym) Ts' draw_pool ds c ds' ml,
+  Forall (fun t => wft arity t = true) (T0 :: Ts') ->
+  uniform_with arity (parents_of arity (T0 :: Ts')) draw_pool ds = Some (c, ds') ->
+  (wfp arity c /\ syms_from (parents_of arity (T0 :: Ts')) c /\
+   (all_le ml (parents_of arity (T0 :: Ts')) -> depthp c <= ml)) /\
+  exists C, good arity c C /\ mix arity (T0 :: Ts') C.
+Proof. intros sym arity. exact (uniform_k_closed arity). Qed.
+Print Assumptions C08_uniform_k_closed.
 
 (* ------------------------------------------------------------------ 2. mutations *)
 Theorem C08_point_mutation_wf : forall (sym : Type) (arity : sym -> nat) (t : ptree sym) U proba ds c ds',
